@@ -122,6 +122,15 @@ def subsets(names):
             yield "".join(c)
 
 
+def eliminate_sets(names, which):
+    if which == "all":
+        return list(subsets(names))
+    out = [names]
+    for c in names:
+        out.append(names.replace(c, ""))
+    return out
+
+
 def names_of(graph):
     return "".join(sorted({c for s in graph for c in s}, key=_name_key))
 
@@ -132,73 +141,96 @@ def layout(k, s):
 
 
 def variants(graph, E, sem, level):
-    """All variants of one (graph, eliminate, semiring); ``level`` selects the tier's breadth."""
+    """All variants of one (graph, eliminate, semiring); ``level`` selects the breadth (see LEVELS)."""
     fn = [tuple(s) for s in graph]
-    allp = [c for c in names_of(graph) if c in PLATES]
+    names = names_of(graph)
+    allp = [c for c in names if c in PLATES]
     ev = [c for c in E if c in VARS]
     ep = [c for c in E if c in PLATES]
-    out = [["psp", 0], ["psp", 1], ["sp"]]
-    if level["splits"]:
+    full = E == names
+
+    def on(key):
+        return level.get(key) == "all" or (level.get(key) == "full" and full)
+
+    one = level["one"]
+    out = []
+    if "psp0" in one:
+        out.append(["psp", 0])
+    if "psp1" in one:
+        out.append(["psp", 1])
+    if "sp" in one:
+        out.append(["sp"])
+    if on("splits"):
         for E1 in subsets(E):
             out.append(["split", E1, "psp"])
     kept_declared = [p for p in allp if p not in ep]
     consistent = plated.batch_consistent(fn, ev, kept_declared)
     for api in ("mod", "dyn"):
-        out.append([api, "elim"])
-        if consistent and kept_declared:
-            out.append([api, "all"])
-    if level["md_splits"] and len(E) >= 1:
+        if api in one:
+            out.append([api, "elim"])
+            if consistent and kept_declared:
+                out.append([api, "all"])
+    if on("md_splits") and len(E) >= 1:
         for E1 in subsets(E):
             if E1 == "" or E1 == E:
                 continue
             out.append(["split", E1, "mod"])
             out.append(["split", E1, "dyn"])
-    if graph:
+    if graph and "einsum" in one:
         out.append(["einsum"])
-    if ep and level["scales"]:
+    if ep and on("scales"):
         for assign in itertools.product((None,) + SCALES, repeat=len(ep)):
             sc = [[p, s] for p, s in zip(ep, assign) if s is not None]
             if not sc:
                 continue
             out.append(["scale", sc, "psp", ""])
-            if level["scale_splits"] and len(E) >= 2:
+            if on("scale_splits") and len(E) >= 2:
                 for E1 in subsets(E):
                     if E1 != "" and E1 != E:
                         out.append(["scale", sc, "psp", E1])
-    if level["param"] and sem in level["param_sems"]:
+    if sem in level.get("param_sems", ()):
         seen = set()
         for k, s in enumerate(graph):
             if s in seen:
                 continue  # equal shapes differ only by fill: one position per shape
             seen.add(s)
             out.append(["param", k, "sp"])
-            if level["param_psp"]:
+            if level.get("param_psp"):
                 out.append(["param", k, "psp"])
     return out
 
 
+ALL_ONE = ("psp0", "psp1", "sp", "mod", "dyn", "einsum")
 LEVELS = {
+    # E: which eliminate sets ("all" subsets of the names present | "full" set and the full set minus one name)
+    # one: one-call variants; splits / md_splits / scales / scale_splits: "all" eliminate sets | "full" set only
     # quick: everything on <=3 factors / 2 variables / 2 plates
-    "q3": dict(splits=True, md_splits=False, scales=True, scale_splits=False, param=True, param_psp=False, param_sems=(0, 1)),
-    # thorough, small pool: more variants
-    "t3": dict(splits=True, md_splits=True, scales=True, scale_splits=True, param=True, param_psp=True, param_sems=(0, 1, 2)),
-    # thorough, large pool
-    "big": dict(splits=True, md_splits=False, scales=True, scale_splits=False, param=False, param_psp=False, param_sems=()),
-    "big1": dict(splits=False, md_splits=False, scales=False, scale_splits=False, param=False, param_psp=False, param_sems=()),
+    "q3": dict(E="all", one=ALL_ONE, splits="all", scales="all", param_sems=(0, 1)),
+    # thorough, small pool: also two-call modified/dynamic, two-call scaled, parameter through partial_sum_product
+    "t3": dict(E="all", one=ALL_ONE, splits="all", md_splits="all", scales="all", scale_splits="all",
+               param_sems=(0, 1, 2), param_psp=True),
+    # thorough, 3 variables / 3 plates: every eliminate set in one call; splits and scales of the full set
+    "big": dict(E="all", one=("psp0", "psp1", "mod", "einsum"), splits="full", scales="full"),
+    "big-psp": dict(E="all", one=("psp0",)),
+    "edge": dict(E="full-1", one=("psp0", "sp"), scales="full"),
+    "four": dict(E="full-1", one=("psp0", "dyn")),
 }
 
 
 def plan(tier):
-    """[(profile, graph list, semiring indices, level name)]"""
+    """[(size profile, graph list, semiring indices, level name)]"""
     if tier == "quick":
         return [("q", graphs(2, 2, 3), (0, 1, 2), "q3")]
+    # 3 variables / 3 plates: variable relabelling removed (all variables have size 2 and no tie-break of the
+    # algorithm reads a variable name); plates are never relabelled (sizes differ or are tie-break positions)
+    g33 = [g for g in graphs(3, 3, 3, canonical=True) if _beyond(g, 2, 2)]
+    g4 = [g for g in graphs(3, 3, 4, canonical=True) if len(g) == 4 and _connected(g)]
     return [
         ("q", graphs(2, 2, 3), (0, 1, 2), "t3"),
-        # 3 variables / 3 plates (sizes 2,3,1): variable relabelling removed (all variables have size 2 and no
-        # tie-break of the algorithm reads a variable name); plates are never relabelled (sizes differ)
-        ("t", [g for g in graphs(3, 3, 3, canonical=True) if _beyond(g, 2, 2)], (0, 1), "big"),
-        ("t", [g for g in graphs(3, 3, 3, canonical=True) if _beyond(g, 2, 2)], (2,), "big1"),
-        ("u", [g for g in graphs(3, 3, 4, canonical=True) if len(g) == 4 and _connected(g)], (0,), "big1"),
+        ("u", g33, (0,), "big"),
+        ("u", g33, (1,), "big-psp"),
+        ("t", g33, (0, 2), "edge"),  # third plate of size 1
+        ("u", g4, (0,), "four"),
     ]
 
 
@@ -227,22 +259,44 @@ def bounds(tier):
         )
     out["scales"] = list(SCALES)
     out["real_parameter_points"] = 2
-    out["eliminate_sets"] = "all subsets of the names occurring in the graph"
+    out["eliminate_sets"] = "E=all: all subsets of the names occurring in the graph; E=full-1: all names, all but one"
     out["splits"] = "all ordered pairs (E1, E - E1), including the empty halves"
     return out
 
 
-def cases(tier):
-    out = []
+def iter_cases(tier):
     for prof, gs, sems, lvl in plan(tier):
         level = LEVELS[lvl]
         for g in gs:
             names = names_of(g)
-            for E in subsets(names):
+            for E in eliminate_sets(names, level["E"]):
                 for sem in sems:
                     for v in variants(g, E, sem, level):
-                        out.append([prof, list(g), E, sem, v])
-    return out
+                        yield [prof, list(g), E, sem, v]
+
+
+def cases(tier):
+    return list(iter_cases(tier))
+
+
+BATCH = 300000
+
+
+def explore(tier, seed, report):
+    """Runs check() over iter_cases(tier) on the worker pool, in batches (bounds the memory of the case list)."""
+    import sys
+
+    mod = sys.modules[__name__]
+    batch = []
+    for case in iter_cases(tier):
+        batch.append(case)
+        if len(batch) >= BATCH:
+            core.run_cases(mod, tier, seed, report, cases=batch)
+            batch = []
+            if not report.exhaustive:
+                return
+    if batch:
+        core.run_cases(mod, tier, seed, report, cases=batch)
 
 
 def describe(case):
@@ -366,8 +420,15 @@ def _reference(fs, sizes, ev, ep, sem, scales=None, original=False):
             return kept, tab, True
         except plated.Intractable:
             return plated.kept_names([n for n, _ in fs], ev, ep), None, False
-    kept, tab = plated.unroll(fs, sizes, ev, ep, sem)
-    return kept, tab, plated.tractable([n for n, _ in fs], ev, ep)
+    tract = plated.tractable([n for n, _ in fs], ev, ep)
+    try:
+        kept, tab = plated.unroll(fs, sizes, ev, ep, sem)
+    except plated.TooBig:
+        # the flat joint table of one component is too large: use the top-down recursion where it exists
+        if not tract:
+            return plated.kept_names([n for n, _ in fs], ev, ep), None, False
+        kept, tab = plated.unroll_nested(fs, sizes, ev, ep, sem)
+    return kept, tab, tract
 
 
 class Run:
@@ -439,7 +500,7 @@ class Run:
             raise Bad("result-type", "%s returned %s" % (API_NAME[api], type(res).__name__))
         tables = _tables(res, tval)
         if expected is None:
-            raise observe.Decline("value-without-reference(scaled,not-nested)")
+            raise observe.Decline("value-without-reference(not-nested and scaled-or-too-large)")
         _compare(tables, self.sem, self.sizes, kept, expected, elim)
         self.compared += 1
         self.labels.append("table" if tract else "table:though-not-nested")
@@ -570,6 +631,8 @@ def _param(run, tensors, fs, declared, k, api):
             ev = frozenset(c for c in E if c in VARS)
             ep = frozenset(c for c in E if c in PLATES)
             kept, expected, _ = _reference(fsp, run.sizes, ev, ep, run.sem)
+            if expected is None:
+                raise observe.Decline("value-without-reference(not-nested and scaled-or-too-large)")
             _compare(_tables(saved, tv), run.sem, run.sizes, kept, expected, frozenset(E))
             run.compared += 1
 
@@ -604,6 +667,8 @@ def _einsum(run, tensors, fs, declared):
             raise Bad("spurious-ValueError", "einsum(%r) raised ValueError(%r) for a nested request" % (eq, res))
         run.labels.append("ValueError:intractable")
         return
+    if expected is None:
+        raise observe.Decline("value-without-reference(not-nested and scaled-or-too-large)")
     _compare(_tables([res], None), run.sem, run.sizes, kept, expected, frozenset(E))
     run.compared += 1
     run.labels.append("table")
